@@ -389,10 +389,16 @@ func runEdgeTemplates(res *Result) {
 		`{% if v, ok := vok(user.Id); ok %}{%= v %}{% else %}{%= v %}{% endif %}{% if v == "x" %}a{% endif %}`,
 		`{% jsonquote %}{% htmlescape %}{% urlencode %}<"&{%= user.Id %}{% endjsonquote %}x{% endurlencode %}y{% endhtmlescape %}z`, `{% endjsonquote %}{% endhtmlescape %}a"<`,
 		`{% break %}`, `{% lazybreak 3 %}`, `{% continue %}`, `{% exit %}a`, `a{% break 2 if user.Id == "x" %}b`,
+		// collections whose elements are slices, maps or of mixed kinds: the loop variable is set
+		// again on every iteration
+		`<{% for k, v := range mslices %}[{%= k %}]{% endfor %}>|<{% for k, v := range mmaps %}({%= k %}){% endfor %}>`, `{% for k, v := range mmixed %}{%= k %}={%= v %};{% endfor %}`,
+		`{% for _, v := range mslices %}{% for _, w := range v %}{%= w %}{% endfor %}{% endfor %}`, `{% for i, s := range strs sep , %}{%= i %}:{%= s %}{% endfor %}`, `{% for k, v := range mmaps %}{%= v.q %}{%= v.s %}{% endfor %}`,
+		`{% ctx x = mslices %}{% ctx x = mmaps %}{% ctx x = mslices.a %}{% ctx x = mslices.b %}{%= x %}`, `{% if mslices == mslices %}a{% endif %}{% if mmaps.p == mmaps.r %}b{% endif %}`,
 	}
 	g := &Gen{r: NewRNG(11), p: profiles["ALL"], flits: map[string]float64{}, tags: map[string]bool{}}
 	g.genData()
 	g.data.User.Present, g.data.User.HasFinance = true, true
+	g.data.Extras = true
 	for _, src := range edges {
 		res.Evaluations++
 		key, _, po := parseDump([]byte(src), false)
